@@ -16,6 +16,11 @@ fn worlds(thorough: bool) -> Vec<Built> {
     let mut v = vec![stdworlds::build_with_roots(&stdworlds::std_spec("c06-std-3000-300", [Enc::Dynamic, Enc::Fixed, Enc::Fixed], 3000, 300), &roots[1..])];
     v.push(stdworlds::build_with_roots(&stdworlds::std_spec("c06-std-1-1", [Enc::Fixed, Enc::Dynamic, Enc::Dynamic], 1, 1), &roots[1..3]));
     v.push(stdworlds::build_with_roots(&stdworlds::chain_spec("c06-dust", [Enc::Dynamic, Enc::Fixed, Enc::Dynamic], 3000, 2500), &stdworlds::dust_roots()[1..]));
+    // deep pool: in-range liquidity 2^72 on a 4-tick range (token amounts stay below 2^59). One unit of LP fee is 2^-8 ulp of the
+    // Q64.64 growth accumulator, so small swaps have a non-zero fee and protocol share while the growth does not move at all.
+    let deep_roots: Vec<(&'static str, Vec<Op>)> =
+        vec![("deep", vec![Op::Inc { pos: 0, liq: 1u128 << 72, v2: true }, Op::Inc { pos: 1, liq: 1u128 << 66, v2: false }, Op::Inc { pos: 2, liq: 1u128 << 66, v2: true }])];
+    v.push(stdworlds::build_with_roots(&stdworlds::ts1_spec("c06-deep"), &deep_roots));
     if thorough {
         v.push(stdworlds::build_with_roots(&stdworlds::std_spec("c06-std-60000-2500", [Enc::Fixed, Enc::Fixed, Enc::Dynamic], 60000, 2500), &roots[1..]));
         v.push(stdworlds::build_with_roots(&stdworlds::std_spec("c06-std-0-0", [Enc::Dynamic, Enc::Dynamic, Enc::Fixed], 0, 0), &roots[1..3]));
@@ -34,6 +39,25 @@ fn alphabet(b: &Built) -> Vec<Op> {
         let mut a = stdworlds::dust_alphabet(b.w.positions.len() as u8);
         a.push(Op::SetFeeRate(60_000));
         a.push(Op::SetProtocolFeeRate(2_500));
+        a.push(Op::SetProtocolFeeRate(1));
+        return a;
+    }
+    if b.name.contains("deep") {
+        let mut a = vec![];
+        for a_to_b in [true, false] {
+            for (exact_in, amount, lim) in [
+                (true, 1u64, Lim::None),
+                (true, 40_000, Lim::None),  // fee 4, protocol share 1, LP share 3 = 0 ulp of growth
+                (true, 2_000_000, Lim::None),
+                (false, 40_000, Lim::None),
+                (true, 1 << 50, Lim::None), // moves the growth
+                (true, u64::MAX >> 8, Lim::NextTick),
+            ] {
+                a.push(Op::Swap { a_to_b, exact_in, amount, lim, v2: exact_in == a_to_b });
+            }
+        }
+        a.push(Op::CollectProtocol { v2: false });
+        a.push(Op::SetFeeRate(60_000));
         a.push(Op::SetProtocolFeeRate(1));
         return a;
     }
@@ -77,6 +101,7 @@ fn model<'a>(b: &'a Built, stats: &'a Mutex<C06Stats>) -> PoolModel<'a> {
                 g.steps_with_fee += local.steps_with_fee;
                 g.crossings += local.crossings;
                 g.nonzero_protocol_cut += local.nonzero_protocol_cut;
+                g.cut_without_growth += local.cut_without_growth;
                 res
             }
             Op::CollectProtocol { .. } => oracles::c06_collect_protocol_oracle(pre, &st.ledger, w),
@@ -107,6 +132,7 @@ pub fn run(ctx: &Ctx) -> Report {
     r.guard("steps_with_nonzero_fee", s.steps_with_fee);
     r.guard("steps_with_nonzero_protocol_cut", s.nonzero_protocol_cut);
     r.guard("tick_crossings", s.crossings);
+    r.guard("steps_with_protocol_cut_but_zero_growth", s.cut_without_growth);
     r.set("exhaustive", false);
     r.assume("hook H2 records the values compute_swap actually received/returned (liquidity, fee rate, amounts per step)");
     r.assume("svm-lite faithfully replaces the validator (DESIGN §2.1)");
